@@ -54,7 +54,7 @@ CHECKS = {
             "technique": "stateful property-based testing (rapid) against a reference model of the agent content",
         },
         "assumptions": ["golang.org/x/crypto keyring is the requester's agent", "the CA double issues certificates valid for exactly the requested validity"],
-        "subchecks": [R("TestC03Provision", 200, 1000, qs=2)],
+        "subchecks": [R("TestC03Provision", 200, 1000, qs=2), R("TestC03Replay", 150, 1500, ts=4)],
     },
     "C04": {
         "pkg": "c04", "level": "fault_enumeration",
@@ -121,6 +121,7 @@ CHECKS = {
             R("TestC07Many", 25, 250, ts=4),
             R("TestC07Lapse", 6, 60, qs=8, ts=16, thorough_extra={"timeout": 1200}),
             R("TestC07HeldSigner", 4, 30, qs=6, ts=16, quick_extra={"timeout": 300}),
+            E("TestC07SlowLapse", quick={"shards": 1, "timeout": 300}, thorough={"shards": 1, "timeout": 600}),
         ],
     },
     "C08": {
